@@ -137,7 +137,7 @@ fn main() {
             for w in ["opened_or_open_after_call", "half_open_after_call", "call_rejected", "interpretation_pruned"] {
                 rep.require_witness(w);
             }
-            let depth = tier.pick(6, 9);
+            let depth = tier.pick(6, 8);
             let grid = c04::grid(tier == Tier::Thorough);
             rep.bounds = json!({"depth": depth, "configurations": grid.len()});
             let scns: Vec<c04::C04> = grid.into_iter().map(|cfg| c04::C04 { cfg }).collect();
